@@ -222,8 +222,10 @@ PROPS = {
             "update(start, stop) is called with start <= stop",
         ],
         "bounded": ["ParameterNodeAtInstant.__init__: member loop unrolled for a group of 3 members (2 parameters, 1 subgroup); values and date symbolic",
-                    "Parameter.__init__: a five-entry document (shuffled dates, one null value, both 'expected' placeholder forms)"],
-        "not_decided": ["ParameterScale._get_at_instant (deferred to the tax-scale contracts)", "YAML loading"],
+                    "Parameter.__init__: a five-entry document (shuffled dates, one null value, both 'expected' placeholder forms)",
+                    "ParameterScale._get_at_instant: a scale of three brackets (definedness, thresholds and values symbolic)",
+                    "ParameterNode._get_at_instant: one history of length two (read, member's history replaced, read again)"],
+        "not_decided": ["YAML loading"],
     },
     "C03": {
         "theories": [CAL_THEORY, "opaque result arrays VAL(variable, period); sums compared by length and pointwise summand"],
